@@ -192,13 +192,16 @@ structure ProbeFx (α : Type) where
 
 namespace ProbeFx
 
+/-- one channel: `f * gain + offset + prev * feedback` in `f32` -/
 def chan (p : ProbeFx α) (x prev : α) : α :=
   KOps.r32 (KOps.r32 (KOps.r32 (x * p.gain) + p.offset) + KOps.r32 (prev * p.feedback))
 
+/-- mirrors: the body of the `for f in input.iter_mut()` loop of ProbeEffect::process -/
 def step (p : ProbeFx α) (f : Frame α) : ProbeFx α × Frame α :=
   let o : Frame α := ⟨p.chan f.left p.prev.left, p.chan f.right p.prev.right⟩
   ({ p with prev := o }, o)
 
+/-- mirrors: harness/src/probe.rs::ProbeEffect::process -/
 def process (p : ProbeFx α) : List (Frame α) → ProbeFx α × List (Frame α)
   | [] => (p, [])
   | f :: fs =>
